@@ -660,8 +660,8 @@ impl Check for C25 {
     }
     fn cases(&self, tier: Tier) -> u64 {
         match tier {
-            Tier::Quick => 8_000,
-            Tier::Thorough => 400_000,
+            Tier::Quick => 60_000,
+            Tier::Thorough => 1_500_000,
         }
     }
     fn tape_len(&self, _t: Tier) -> usize {
